@@ -5,6 +5,20 @@ from bardolph.lib.time_pattern import TimePattern
 from bardolph.parser.token import Token, TokenTypes
 
 
+# Token types that stand for a lexical class, as opposed to a keyword that is
+# spelled like the type's name.
+_CLASS_TYPES = (
+    TokenTypes.COMPARE, TokenTypes.EOF, TokenTypes.ERROR,
+    TokenTypes.LITERAL_STRING, TokenTypes.MARK, TokenTypes.NAME,
+    TokenTypes.NULL, TokenTypes.NUMBER, TokenTypes.REGISTER,
+    TokenTypes.SYNTAX_ERROR, TokenTypes.TIME_PATTERN, TokenTypes.UNKNOWN)
+
+# Keywords are always in lower case.
+_KEYWORDS = {
+    token_type.name.lower(): token_type
+    for token_type in TokenTypes if token_type not in _CLASS_TYPES}
+
+
 class Lex:
     _CMP_SPEC = r'==|<=|>=|!=|[<>]'
     _REG = ('hue saturation brightness kelvin red green blue default duration '
@@ -62,7 +76,7 @@ class Lex:
         return Lex._INT.match(text) is not None
 
     def _token_type(self, word):
-        token_type = TokenTypes.__members__.get(word.upper())
+        token_type = _KEYWORDS.get(word)
         if token_type is not None:
             return token_type
         if word in self._REG_LIST:
